@@ -29,9 +29,10 @@ const (
 
 func init() {
 	fw.Register(&fw.Prop{
-		ID:       "C16",
-		Builds:   []string{"default", "386"}, // the 386 build runs 1/4 of the random classes on a 32-bit target
-		Scale386: 4,
+		ID:                  "C16",
+		DeadlockIsViolation: true,                       // the calls of this property are synchronous functions of their inputs: a call blocked for good inside the library is a violation
+		Builds:              []string{"default", "386"}, // the 386 build runs 1/4 of the random classes on a 32-bit target
+		Scale386:            4,
 		// a history case scans its share of all 2^30 checksum values when Decode turns out to depend on the call before it
 		StallClass:       map[string]int{"history": 1500},
 		WatchdogQuick:    3000,
